@@ -1,4 +1,4 @@
-// probe: development aid — signs every functest fixture with a fixture key and verifies it.
+// probe: development aid — signs every functest fixture standalone and through the server handler and verifies it.
 package main
 
 import (
@@ -8,6 +8,8 @@ import (
 	"net/url"
 	"os"
 	"path/filepath"
+
+	"github.com/sassoftware/relic/v8/server"
 
 	"verif/relicx"
 )
@@ -22,31 +24,43 @@ func cp(src, dst string) {
 
 func main() {
 	relicx.Quiet()
-	cfg := relicx.BaseConfig("file")
+	cfg := relicx.ServerConfig("file")
 	relicx.Use(cfg)
 	tok, err := relicx.OpenTokenByKey(cfg, "rsaA")
 	if err != nil {
 		panic(err)
 	}
+	srv, err := server.New(cfg)
+	if err != nil {
+		panic(err)
+	}
+	h := srv.Handler()
 	dir, _ := os.MkdirTemp("", "probe")
 	defer os.RemoveAll(dir)
 	ents, _ := os.ReadDir(relicx.Packages)
 	for _, e := range ents {
-		for _, key := range []string{"rsaA", "p256A"} {
+		if e.IsDir() {
+			continue
+		}
+		for _, mode := range []string{"standalone", "server"} {
 			in := filepath.Join(dir, e.Name())
 			cp(filepath.Join(relicx.Packages, e.Name()), in)
-			err := relicx.SignStandalone(cfg, tok, relicx.SignReq{Key: key, Hash: crypto.SHA256, Flags: url.Values{}, In: in})
+			req := relicx.SignReq{Key: "rsaA", Hash: crypto.SHA256, Flags: url.Values{}, In: in}
+			if mode == "standalone" {
+				err = relicx.SignStandalone(cfg, tok, req)
+			} else {
+				err = relicx.SignViaServer(h, req)
+			}
 			if err != nil {
-				fmt.Printf("%-40s %-6s SIGN-ERR %v\n", e.Name(), key, err)
+				fmt.Printf("%-40s %-10s SIGN-ERR %v\n", e.Name(), mode, err)
 				continue
 			}
-			opts := relicx.TrustOpts()
-			sigs, err := relicx.Verify(in, opts)
+			sigs, err := relicx.Verify(in, relicx.TrustOpts())
 			if err != nil {
-				fmt.Printf("%-40s %-6s VERIFY-ERR %v (sigs=%d)\n", e.Name(), key, err, len(sigs))
+				fmt.Printf("%-40s %-10s VERIFY-ERR %v (sigs=%d)\n", e.Name(), mode, err, len(sigs))
 				continue
 			}
-			fmt.Printf("%-40s %-6s ok sigs=%d\n", e.Name(), key, len(sigs))
+			fmt.Printf("%-40s %-10s ok sigs=%d\n", e.Name(), mode, len(sigs))
 		}
 	}
 }
